@@ -176,7 +176,10 @@ func vTempDir() string {
 	return d
 }
 
-func vFileExists(path string) bool { return isFileAndExist(path) }
+func vFileExists(path string) bool {
+	st, err := os.Stat(path)
+	return err == nil && st.Mode().IsRegular()
+}
 
 func vRemoveFile(path string) { os.Remove(path) }
 
@@ -483,3 +486,22 @@ func vShapeOf(n interface{}) string {
 
 // vMapOrder: natively the runtime randomises map iteration by itself.
 func vMapOrder(on bool) {}
+
+// vReadJSON decodes a (possibly gzip-compressed) JSON file with plain
+// encoding/json, independently of the package's own reader.
+func vReadJSON(path string, v interface{}) error {
+	b, err := os.ReadFile(path)
+	if err != nil {
+		return err
+	}
+	if strings.HasSuffix(path, ".gz") {
+		zr, err := gzip.NewReader(bytes.NewReader(b))
+		if err != nil {
+			return err
+		}
+		if b, err = io.ReadAll(zr); err != nil {
+			return err
+		}
+	}
+	return json.Unmarshal(b, v)
+}
